@@ -126,6 +126,9 @@ FN_RE = re.compile(r'\b(?:proof\s+|spec\s+|exec\s+)?fn\s+([A-Za-z_][A-Za-z0-9_]*
 
 def enclosing_function(woven, line_idx):
     """name of the fn whose header is the closest one above line_idx (0-based) at a smaller-or-equal indent"""
+    # the body brace of a function sits alone on its line without indentation (rule R13): start from the header above it
+    while line_idx > 0 and woven.lines[line_idx].strip() == '{':
+        line_idx -= 1
     for k in range(line_idx, -1, -1):
         m = FN_RE.search(woven.lines[k])
         if m and not woven.lines[k].lstrip().startswith('//'):
